@@ -48,38 +48,43 @@ func runC02(c *Ctx) {
 	// roles: host-table probe = callee of MatchRequest returning ([]rules.Rule, bool); insert = method of DNSEngine taking *HostRule
 	var probe, insert, poolGet *ssa.Function
 	probeFiles := false // the probe appends to the result's family lists itself
-	eachInstrG(c.P, mr, func(_ *ssa.BasicBlock, in ssa.Instruction) {
-		if ci, ok := in.(ssa.CallInstruction); ok {
-			if cal := ci.Common().StaticCallee(); cal != nil && c.P.IsLibFunc(cal) && !c.P.IsNewHelper(cal) {
-				r := cal.Signature.Results()
-				// the host-table probe: takes the hostname, returns the matching rules (as []rules.Rule with
-				// a found flag, or as []*rules.HostRule)
-				if (r.Len() == 2 && (typeStr(r.At(0).Type()) == "[]rules.Rule" || typeStr(r.At(0).Type()) == "[]*rules.HostRule") && typeStr(r.At(1).Type()) == "bool") || (r.Len() == 1 && typeStr(r.At(0).Type()) == "[]*rules.HostRule") {
-					if cal.Signature.Params().Len() == 1 && typeStr(cal.Signature.Params().At(0).Type()) == "string" {
-						probe = cal
-					}
-				}
-				// ... or files them into the result it is handed and reports whether it found any
-				if r.Len() == 1 && typeStr(r.At(0).Type()) == "bool" && cal.Signature.Params().Len() == 2 && typeStr(cal.Signature.Params().At(0).Type()) == "string" &&
-					strings.HasSuffix(typeStr(cal.Signature.Params().At(1).Type()), "DNSResult") && readsHostTable(c.P, cal) {
-					probe, probeFiles = cal, true
-				}
-				if r.Len() == 1 && typeStr(r.At(0).Type()) == "*rules.Request" {
-					poolGet = cal
-				}
+	hostIdx, resIdx := 1, 2 // parameter positions (receiver = 0) of the hostname and, for a filing probe, of the result
+	listProbe := func(cal *ssa.Function) bool {
+		r := cal.Signature.Results()
+		// takes the hostname, returns the matching rules (as []rules.Rule with a found flag, or as []*rules.HostRule)
+		if (r.Len() == 2 && (typeStr(r.At(0).Type()) == "[]rules.Rule" || typeStr(r.At(0).Type()) == "[]*rules.HostRule") && typeStr(r.At(1).Type()) == "bool") || (r.Len() == 1 && typeStr(r.At(0).Type()) == "[]*rules.HostRule") {
+			return cal.Signature.Params().Len() == 1 && typeStr(cal.Signature.Params().At(0).Type()) == "string"
+		}
+		return false
+	}
+	filingProbe := func(cal *ssa.Function) bool {
+		// ... or files them into the result it is handed and reports whether it found any
+		r, ps := cal.Signature.Results(), cal.Signature.Params()
+		if r.Len() != 1 || typeStr(r.At(0).Type()) != "bool" || ps.Len() != 2 || !readsHostTable(c.P, cal) {
+			return false
+		}
+		t0, t1 := typeStr(ps.At(0).Type()), typeStr(ps.At(1).Type())
+		return (t0 == "string" && strings.HasSuffix(t1, "DNSResult")) || (t1 == "string" && strings.HasSuffix(t0, "DNSResult"))
+	}
+	if probe = c.P.ResolveRole(mr, listProbe); probe == nil {
+		if probe = c.P.ResolveRole(mr, filingProbe); probe != nil {
+			probeFiles = true
+			if typeStr(probe.Signature.Params().At(0).Type()) != "string" {
+				hostIdx, resIdx = 2, 1
 			}
 		}
+	}
+	if probe != nil && probe.Signature.Recv() == nil {
+		hostIdx, resIdx = hostIdx-1, resIdx-1
+	}
+	poolGet = c.P.ResolveRole(mr, func(cal *ssa.Function) bool {
+		r := cal.Signature.Results()
+		return r.Len() == 1 && typeStr(r.At(0).Type()) == "*rules.Request" && !c.P.IsNewHelper(cal)
 	})
-	eachInstrG(c.P, nde, func(_ *ssa.BasicBlock, in ssa.Instruction) {
-		if ci, ok := in.(ssa.CallInstruction); ok {
-			if cal := ci.Common().StaticCallee(); cal != nil && c.P.IsLibFunc(cal) && !c.P.IsNewHelper(cal) && cal.Signature.Recv() != nil {
-				ps := cal.Signature.Params()
-				// the host-table insert: handed the host rule (or its names) and the storage index
-				if ps.Len() == 2 && (typeStr(ps.At(0).Type()) == "*rules.HostRule" || typeStr(ps.At(0).Type()) == "[]string") {
-					insert = cal
-				}
-			}
-		}
+	insert = c.P.ResolveRole(nde, func(cal *ssa.Function) bool {
+		// the host-table insert: handed the host rule (or its names) and the storage index
+		ps := cal.Signature.Params()
+		return cal.Signature.Recv() != nil && ps.Len() == 2 && (typeStr(ps.At(0).Type()) == "*rules.HostRule" || typeStr(ps.At(0).Type()) == "[]string")
 	})
 	// (the pool refill may be a helper returning the request, or Get in place plus a fill function)
 	if probe == nil || insert == nil {
@@ -88,7 +93,7 @@ func runC02(c *Ctx) {
 	}
 
 	// ---------- R1 ----------
-	if guardedBy(c, "C02.R1", probe, hm, 1, "hostname") == 0 {
+	if guardedBy(c, "C02.R1", probe, hm, hostIdx, "hostname") == 0 {
 		c.Fail("C02.R1", shortFn(probe)+": emission", probe.Pos(), "UNDECIDED: no inspectable append")
 	}
 	{
@@ -98,7 +103,13 @@ func runC02(c *Ctx) {
 		ps := g.ParamExprs(probe)
 		ok := false
 		for _, site := range callsTo(probe, fh) {
-			if ce := s.Env[site.(ssa.Value)]; ce != nil && ce.Args[0] == ps[1] {
+			if ce := s.Env[site.(ssa.Value)]; ce != nil && ce.Args[0] == ps[hostIdx] {
+				ok = true
+			}
+		}
+		// (the hash may be taken by a helper outside the vocabulary: the key of the table lookup decides)
+		for _, e := range g.U.tab {
+			if e.Op == "lookup" && len(e.Args) == 2 && e.Args[1].Op == "call" && e.Args[1].Aux == calleeName(fh) && len(e.Args[1].Args) > 0 && e.Args[1].Args[0] == ps[hostIdx] {
 				ok = true
 			}
 		}
@@ -379,7 +390,7 @@ func runC02(c *Ctx) {
 			fmt.Sprintf("NetworkRules stored unfiltered=%v, request built from this query=%v, selector applied to it=%v", okNR, okReq, okSel))
 		// basic rule wins; host table not consulted then
 		basicNil := u.ToBool(u.Eq(callGDB.Call, u.mk("nil", "", nil)))
-		c.Check(u.bdd.Implies(callProbe.Cond, basicNil) && callProbe.Call.Args[1] == host, "C02.R4", "MatchRequest: host table consulted only without a basic rule, with the queried hostname", callProbe.Pos,
+		c.Check(u.bdd.Implies(callProbe.Cond, basicNil) && callProbe.Call.Args[hostIdx] == host, "C02.R4", "MatchRequest: host table consulted only without a basic rule, with the queried hostname", callProbe.Pos,
 			"probe reached only when GetDNSBasicRule returned nil", "hosts-file rules are consulted although a basic network rule was found (or with another hostname)")
 		okBasic := false
 		for _, ef := range s.Effects {
@@ -397,7 +408,7 @@ func runC02(c *Ctx) {
 		if probeFiles {
 			okFlag = u.ToBool(callProbe.Call)
 			// the result it files into is the one this query returns
-			if len(callProbe.Call.Args) < 3 || callProbe.Call.Args[2] != g.RetExpr(s, 0) || !(callProbe.Call.Args[2].Op == "alloc" || callProbe.Call.Args[2].Op == "new") {
+			if len(callProbe.Call.Args) <= resIdx || callProbe.Call.Args[resIdx] != g.RetExpr(s, 0) || !(callProbe.Call.Args[resIdx].Op == "alloc" || callProbe.Call.Args[resIdx].Op == "new") {
 				okFlag = False
 			}
 		} else if probe.Signature.Results().Len() == 2 {
